@@ -160,12 +160,51 @@ pub fn replay(case: &Value) -> Result<(), Failure> {
 
 pub fn c17(quick: bool, seed: u64) -> Outcome {
     let mut o = Outcome::new(
-        "proptest API cases for all six modules: constructor arguments in the documented ranges (sample rates in [100 Hz,192 kHz] incl. both ends; ribbon: 24 compiled rates with helper-sized buffers and resistor triples; MIDI channel any u8) + 0..200 calls with arguments from range end points, subnormals, +-0, huge finite values and - where the statement allows - NaN/inf (quantizer inputs), MIDI bytes uniform 0..=255, ribbon samples in [0,1] incl. both ends, glide times >= 0 incl. 0/subnormal/1e30/f32::MAX, LFO frequencies in [0,fs] incl. both ends and phases of any finite value; every call runs under catch_unwind in a build with overflow-checks and debug-assertions on (any unwind = violation with the call index). Bounded liveness: generated envelope configurations (T*fs < 1 over-weighted) must reach exactly the sustain level after gate-on and exactly 0 after gate-off within 2*(N/(1-N/2^24)+2) ticks per phase. non-trivial = case with >= 1 extreme argument (end point / non-finite / subnormal / zero / |x| >= 1e9 / raw MIDI bytes) and >= 20 calls, or a liveness case with a phase shorter than one sample or an extreme parameter; distinct by hash",
+        "proptest API cases for all six modules: constructor arguments in the documented ranges (sample rates in [100 Hz,192 kHz] incl. both ends; ribbon: 24 compiled rates with helper-sized buffers and resistor triples; MIDI channel any u8) + 0..200 calls with arguments from range end points, subnormals, +-0, huge finite values and - where the statement allows - NaN/inf (quantizer inputs), MIDI bytes uniform 0..=255, ribbon samples in [0,1] incl. both ends, glide times >= 0 incl. 0/subnormal/1e30/f32::MAX, LFO frequencies in [0,fs] incl. both ends and phases of any finite value; every call runs under catch_unwind in a build with overflow-checks and debug-assertions on (any unwind = violation with the call index); in addition the case generators of all other checks (ADSR, LFO, quantizer, MIDI, glide, ribbon histories incl. their boundary classes) are executed with every oracle switched off, so that any panic they can reach is reported here too (envelope parameters made finite to stay in C17's domain). Bounded liveness: generated envelope configurations (T*fs < 1 over-weighted) must reach exactly the sustain level after gate-on and exactly 0 after gate-off within 2*(N/(1-N/2^24)+2) ticks per phase. non-trivial = case with >= 1 extreme argument (end point / non-finite / subnormal / zero / |x| >= 1e9 / raw MIDI bytes) and >= 20 calls, or a liveness case with a phase shorter than one sample or an extreme parameter; distinct by hash",
     );
     o.assumptions.push("harness profile: opt-level 3, overflow-checks = on, debug-assertions = on (also for synth-utils and its dependencies)".into());
     o.assumptions.push("'fails to return' is decided as bounded liveness of the envelope; every other public operation is loop-free or bounded by the buffer capacity".into());
     let cases = if quick { 200_000 } else { 2_000_000 };
     let part = pt_run("api_any", api_case, cases, seed, 17, 4000, |c, st| run_case(c, st).map(|i| i.nontrivial));
+    o.absorb(part);
+    // every other check's case generator, run through its interpreter with all oracles off: only an unwind counts
+    // (the runner turns a panic into a failure of the case). Arguments stay inside C17's domain: envelope times and
+    // sustain levels are made finite, everything else already is.
+    let n = if quick { 12_000 } else { 300_000 };
+    let only_panic = |r: Result<bool, Failure>| -> Result<bool, Failure> {
+        match r {
+            Err(f) if f.rule.contains("panic") => Err(f),
+            _ => Ok(false), // counted as evaluations, not as non-trivial cases of C17
+        }
+    };
+    let finite = |c: &vcore::adsr::AdsrCase| -> vcore::adsr::AdsrCase {
+        use vcore::adsr::AdsrOp::*;
+        let fix = |x: f32| if x.is_finite() { x } else { 0.5 };
+        vcore::adsr::AdsrCase {
+            fs: c.fs,
+            ops: c.ops.iter().map(|op| match op {
+                SetAttack(t) => SetAttack(fix(*t)),
+                SetDecay(t) => SetDecay(fix(*t)),
+                SetRelease(t) => SetRelease(fix(*t)),
+                SetSustain(t) => SetSustain(fix(*t)),
+                o => o.clone(),
+            }).collect(),
+        }
+    };
+    let part = pt_run("adsr_history", crate::p_adsr::adsr_case, n, seed, 171, 2000, |c, st| only_panic(vcore::adsr::run_case(&finite(c), 0, 100_000, st).map(|_| true)));
+    o.absorb(part);
+    let part = pt_run("lfo_history", crate::p_lfo::lfo_case, n, seed, 172, 2000, |c, st| only_panic(vcore::lfo::run_case(c, 0, 200_000, st).map(|_| true)));
+    o.absorb(part);
+    let part = pt_run("quant_history", crate::p_quant::quant_case, n, seed, 173, 2000, |c, st| only_panic(vcore::quant::run_case(c, 0, st).map(|_| true)));
+    o.absorb(part);
+    let part = pt_run("midi_model", crate::p_midi::case_c04, n, seed, 174, 2000, |c, st| only_panic(vcore::midi::run_case(c, 0, st).map(|_| true)));
+    o.absorb(part);
+    let part = pt_run("glide_c13", crate::p_glide::glide_case, n, seed, 175, 2000, |c, _st| {
+        vcore::glide::run_plain(c, 100_000);
+        Ok(false)
+    });
+    o.absorb(part);
+    let part = pt_run("ribbon_history", || crate::p_ribbon::ribbon_case(6), n / 4, seed, 176, 1000, |c, st| only_panic(vcore::ribbon::run_case(c, 0, st).map(|_| true)));
     o.absorb(part);
     o
 }
